@@ -25,13 +25,16 @@ Record deviations := mkDev {
                                    [finally] at once: later callbacks and the whole registry cleanup are skipped *)
   d_live_iter : bool;           (* D141: the callback loop iterates the live dict: add/remove during a suspended
                                    callback raises RuntimeError out of run_coro (cleanup skipped) *)
-  d_call_cancel_kills : bool    (* D142: the @service handler awaits the service task unprotected: when the service run is
+  d_call_cancel_kills : bool;   (* D142: the @service handler awaits the service task unprotected: when the service run is
                                    cancelled, a run blocked in service.call(..., blocking=True) on it gets CancelledError too *)
+  d_shutdown_no_cbrec : bool    (* D143: legacy @time_trigger("shutdown") runs are started by task_waiter without ast_ctx:
+                                   no task2cb record (add_done_callback on such a run raises KeyError) *)
 }.
-Definition no_dev := mkDev false false false false false.
-Definition all_dev := mkDev true true true true true.
+Definition no_dev := mkDev false false false false false false.
+Definition all_dev := mkDev true true true true true true.
 
-Inductive kind := KTrig | KSvc | KCreate.        (* started by a trigger / a service call / task.create *)
+(* started by a trigger / a service call / task.create / the legacy waiter task for a shutdown trigger *)
+Inductive kind := KTrig | KSvc | KCreate | KShutL.
 Inductive outcome := ORet (v : option N) | ORaise | OCancel | OEscape.
 Inductive cbres := CbOk | CbRaise | CbCancelled.
 
@@ -196,7 +199,7 @@ Definition step (cfg : deviations) (s : state) (l : label) : option state :=
       match phase_of s t with
       | PNone =>
           let s1 := set_task s t (mkT k PCreated false 0 None None []) in
-          Some (match k with KSvc => s1 | _ => set_cb s1 t (Some []) end)
+          Some (match k with KSvc | KShutL => s1 | _ => set_cb s1 t (Some []) end)
       | _ => None
       end
   | LStart t =>
@@ -207,9 +210,11 @@ Definition step (cfg : deviations) (s : state) (l : label) : option state :=
           let s2 := match tr_kind r with
                     | KSvc => if d_service_no_cbrec cfg then s1
                               else match st_cb s1 t with None => set_cb s1 t (Some []) | Some _ => s1 end
+                    | KShutL => if d_shutdown_no_cbrec cfg then s1
+                                else match st_cb s1 t with None => set_cb s1 t (Some []) | Some _ => s1 end
                     | _ => match st_cb s1 t with None => set_cb s1 t (Some []) | Some _ => s1 end
                     end in
-          Some (match tr_kind r with KTrig => set_ctx s2 t true | _ => s2 end)
+          Some (match tr_kind r with KTrig | KShutL => set_ctx s2 t true | _ => s2 end)
       | _ => None
       end
   | LAdd t x j a =>
